@@ -9,12 +9,12 @@ from concurrent.futures import ThreadPoolExecutor
 V = os.path.dirname(os.path.dirname(os.path.abspath(__file__)))
 sys.path.insert(0, V)
 
-def prep(sid):
+def prep(sid, patch=None):
     d = tempfile.mkdtemp(prefix='psa-mut-%s-' % sid)
     for sub in ('src', 'include', 'tests'):
         shutil.copytree('/repo/' + sub, d + '/' + sub)
     shutil.copy('/repo/CMakeLists.txt', d)
-    r = subprocess.run('patch -p1 --fuzz=3 -s < %s/seeded/%s/patch.diff' % (V, sid), shell=True, cwd=d, capture_output=True, text=True)
+    r = subprocess.run('patch -p1 --fuzz=3 -s < %s' % (patch or '%s/seeded/%s/patch.diff' % (V, sid)), shell=True, cwd=d, capture_output=True, text=True)
     if r.returncode != 0:
         shutil.rmtree(d); return None, r.stdout + r.stderr
     return d, ''
@@ -33,12 +33,43 @@ def run_one(args):
     broken = [l for l in r.stdout.splitlines() if l.startswith('ANALYSIS-BROKEN')]
     return sid, pid, r.returncode, rules, broken
 
+def equivalents(a, pids):
+    d = V + '/selftest/equivalents'
+    ids = a.ids.split(',') if a.ids else sorted(f[:-5] for f in os.listdir(d) if f.endswith('.diff'))
+    trees = {}
+    for sid in ids:
+        t, err = prep(sid, patch='%s/%s.diff' % (d, sid))
+        if t is None: print('PATCH DOES NOT APPLY:', sid, err[:200])
+        else: trees[sid] = t
+    jobs = [(sid, pid, trees[sid], a.tier) for sid in trees for pid in pids]
+    res = {}
+    try:
+        with ThreadPoolExecutor(max_workers=14) as ex:
+            for sid, pid, rc, rules, broken in ex.map(run_one, jobs):
+                res.setdefault(sid, {})[pid] = {'exit': rc, 'rules': rules, 'broken': broken}
+    finally:
+        for t in trees.values(): shutil.rmtree(t, ignore_errors=True)
+    out = d + '/RESULTS.json'
+    old = json.load(open(out)) if os.path.exists(out) else {}
+    for sid in res: old.setdefault(sid, {}).update(res[sid])
+    json.dump(old, open(out, 'w'), indent=1, sort_keys=True)
+    bad = 0
+    for sid in sorted(res):
+        al = sorted(p for p, v in res[sid].items() if v['exit'] == 1); br = sorted(p for p, v in res[sid].items() if v['exit'] == 2)
+        print('%-45s silent=%d%s%s' % (sid, sum(1 for v in res[sid].values() if v['exit'] == 0), '  FALSE-ALARM=' + ','.join(al) if al else '', '  exit2=' + ','.join(br) if br else ''))
+        bad += len(al)
+    return 1 if bad else 0
+
+
 def main():
     ap = argparse.ArgumentParser()
     ap.add_argument('--props'); ap.add_argument('--ids'); ap.add_argument('--tier', default='quick')
+    ap.add_argument('--equivalents', action='store_true', help='run the behaviour-preserving edits of selftest/equivalents: every check must stay silent')
     a = ap.parse_args()
     from psa import props
     pids = a.props.split(',') if a.props else sorted(props.REGISTRY)
+    if a.equivalents:
+        return equivalents(a, pids)
     ids = a.ids.split(',') if a.ids else sorted(d for d in os.listdir(V + '/seeded') if os.path.exists(V + '/seeded/' + d + '/patch.diff'))
     trees = {}
     for sid in ids:
@@ -73,4 +104,4 @@ def main():
                                            '' if own in det or own not in pids else '   <-- own property check silent'))
 
 if __name__ == '__main__':
-    main()
+    sys.exit(main() or 0)
